@@ -1113,6 +1113,17 @@ example : Sites.smallStrRoundTrip 22 22 = .ok (some 22) ∧ Sites.smallStrRoundT
 example : Sites.smallStrFromChar 3 4 = .panic := by decide   -- a capacity below 4 would make the unwrap fail
 example : Sites.smallStrRoundTrip 300 260 = .ok (some 4) := by decide  -- a capacity above 255 would truncate the length
 
+/-- `ops::pow`, the arm for exponents beyond `u32` (fix 3a8d5c6): under its guard `-1 ≤ a ≤ 1` the product
+`a * a` stays in `i128` and `b % 2` has a non-zero constant divisor, so neither arithmetic site can trap -/
+theorem pow_unit_base_no_panic (a b : Int) (ha : -1 ≤ a ∧ a ≤ 1) :
+    -(170141183460469231731687303715884105728 : Int) ≤ (if b % 2 = 0 then a * a else a) ∧
+    (if b % 2 = 0 then a * a else a) < 170141183460469231731687303715884105728 ∧ (2 : Int) ≠ 0 := by
+  obtain ⟨h1, h2⟩ := ha
+  have : a = -1 ∨ a = 0 ∨ a = 1 := by omega
+  rcases this with rfl | rfl | rfl <;> split <;> simp
+
+example : (-1 : Int) ≤ -1 ∧ (-1 : Int) ≤ 1 := by decide
+
 set_option maxRecDepth 100000 in
 /-- every potential crash site of the crate's non-test code (regenerated table) has a row in the hand-made
 classification with the same number of sites — a new `unwrap()` / index / cast / arithmetic site, or one that
@@ -1130,7 +1141,7 @@ theorem panic_evidence_given : PanicSites.evidenceGiven = true := by decide +ker
 /-- (rows, sites) per class: a proved, b guarded (tabled), c outside the quantifier, d oracle only -/
 theorem panic_site_class_counts :
     (PanicSites.rowsOf .a, PanicSites.sitesOf .a) = (54, 117) ∧
-    (PanicSites.rowsOf .b, PanicSites.sitesOf .b) = (27, 36) ∧
+    (PanicSites.rowsOf .b, PanicSites.sitesOf .b) = (28, 38) ∧
     (PanicSites.rowsOf .c, PanicSites.sitesOf .c) = (20, 27) ∧
     (PanicSites.rowsOf .d, PanicSites.sitesOf .d) = (170, 317) := by decide +kernel
 
